@@ -140,11 +140,9 @@ func ruleGCAfterRelease(c *Ctx) {
 			if u, ok := v.(*ssa.UnOp); ok && u.Op == token.NOT {
 				v, neg = u.X, true
 			}
-			if r := t.Resolve(fr, v); r.Fr == t.RootFr {
-				if prm, ok := r.V.(*ssa.Parameter); ok {
-					if b, isB := prm.Type().Underlying().(*types.Basic); isB && b.Kind() == types.Bool {
-						return []Ev{{Kind: fmt.Sprintf("param:%s=%v", prm.Name(), dir != neg)}}
-					}
+			if nm, ty := rootParamRole(t, fr, v); nm != "" {
+				if b, isB := ty.Underlying().(*types.Basic); isB && b.Kind() == types.Bool {
+					return []Ev{{Kind: fmt.Sprintf("param:%s=%v", nm, dir != neg)}}
 				}
 			}
 			// the nothing-held guard: a sum of the counters compared with zero
@@ -157,6 +155,15 @@ func ruleGCAfterRelease(c *Ctx) {
 						if y.Op == token.ADD {
 							walk(y.X)
 							walk(y.Y)
+						}
+					case *ssa.Call:
+						// the sum kept in a helper (`s.counts.total()`): its returned expression
+						if sf := y.Call.StaticCallee(); sf != nil && p.isRepoFn(sf) {
+							for _, in := range instrsOf(sf) {
+								if r, ok := in.(*ssa.Return); ok && len(r.Results) == 1 {
+									walk(r.Results[0])
+								}
+							}
 						}
 					default:
 						if f, _ := fieldLoad(t.Resolve(fr, v).V); f != nil {
@@ -1078,6 +1085,25 @@ func ruleGuardedFields(c *Ctx) {
 			if _, isAlloc := fa.X.(*ssa.Alloc); isAlloc {
 				continue // construction
 			}
+			// the address only handed on (`s.shutdownServer(&s.httpSrv, …)`): the access is where it is dereferenced
+			touched := false
+			if fa.Referrers() != nil {
+				for _, r := range *fa.Referrers() {
+					switch y := r.(type) {
+					case *ssa.UnOp, *ssa.Store, *ssa.MapUpdate, *ssa.Lookup, *ssa.Range, *ssa.IndexAddr, *ssa.FieldAddr:
+						touched = true
+					case ssa.CallInstruction:
+						if _, isB := y.Common().Value.(*ssa.Builtin); isB {
+							touched = true
+						}
+					default:
+						touched = true
+					}
+				}
+			}
+			if !touched {
+				continue
+			}
 			fn := fa.Parent()
 			st := 0
 			if m := states[fn]; m != nil {
@@ -1322,4 +1348,132 @@ func (p *Prog) onReferenceTree(fn *ssa.Function) bool {
 		}
 	}
 	return false
+}
+
+// refOwnerName: the name an obligation about fn is filed under: fn's own name, or —
+// when fn is a helper that did not exist on the reference tree — the function of
+// the reference tree it was extracted from (its only static caller, transitively).
+func (p *Prog) refOwnerName(fn *ssa.Function) string {
+	top := TopLevel(fn)
+	if p.onReferenceTree(top) {
+		return fnName(fn)
+	}
+	for _, o := range p.ownerChain(fn) {
+		if f := p.ByNm[o]; f != nil && p.onReferenceTree(f) {
+			return o
+		}
+	}
+	return fnName(fn)
+}
+
+// rootParamRole: v is (a field of) a parameter of the root function — `direct`,
+// or `rel.direct` for a parameter object `rel countRelease` — seen from any
+// frame of the path. Returns the role name (the parameter's or the field's
+// name) and its type.
+func rootParamRole(t *Tracer, fr *Frame, v ssa.Value) (string, types.Type) {
+	r := t.Resolve(fr, v)
+	isRootParam := func(x ssa.Value, xfr *Frame) *ssa.Parameter {
+		rx := t.Resolve(xfr, x)
+		if prm, ok := rx.V.(*ssa.Parameter); ok && (rx.Fr == t.RootFr || rx.Fr == nil) && prm.Parent() == t.Root {
+			return prm
+		}
+		// a struct parameter spilled to a local cell
+		if al, ok := rx.V.(*ssa.Alloc); ok && al.Referrers() != nil {
+			var val ssa.Value
+			n := 0
+			for _, rr := range *al.Referrers() {
+				if st, ok := rr.(*ssa.Store); ok && st.Addr == ssa.Value(al) {
+					val = st.Val
+					n++
+				}
+			}
+			if n == 1 {
+				if prm, ok := val.(*ssa.Parameter); ok && prm.Parent() == t.Root {
+					return prm
+				}
+			}
+		}
+		return nil
+	}
+	switch x := r.V.(type) {
+	case *ssa.Parameter:
+		if (r.Fr == t.RootFr || r.Fr == nil) && x.Parent() == t.Root {
+			return x.Name(), x.Type()
+		}
+	case *ssa.UnOp:
+		if x.Op == token.MUL {
+			if fa, ok := x.X.(*ssa.FieldAddr); ok {
+				if prm := isRootParam(fa.X, r.Fr); prm != nil {
+					if f := fieldOfAddr(fa); f != nil {
+						return f.Name(), f.Type()
+					}
+				}
+			}
+		}
+	case *ssa.Field:
+		if prm := isRootParam(x.X, r.Fr); prm != nil {
+			if st, ok := x.X.Type().Underlying().(*types.Struct); ok {
+				return st.Field(x.Field).Name(), st.Field(x.Field).Type()
+			}
+		}
+	}
+	return "", nil
+}
+
+// callRoleArg: the argument of a call that plays the named role: the positional
+// argument when the callee still has a parameter of that name, else the value a
+// composite-literal argument (a parameter object) gives the field of that name.
+// ok=false when the role cannot be found; a field the literal leaves out is nil.
+func callRoleArg(call ssa.CallInstruction, role string) (ssa.Value, bool) {
+	com := call.Common()
+	args := callArgs(com)
+	var sig *types.Signature
+	if f := calleeFunc(com); f != nil {
+		sig, _ = f.Type().(*types.Signature)
+	}
+	if sig != nil {
+		off := 0
+		if sig.Recv() != nil {
+			off = 1
+		}
+		for i := 0; i < sig.Params().Len(); i++ {
+			if sig.Params().At(i).Name() == role && i+off < len(args) {
+				return args[i+off], true
+			}
+		}
+	}
+	for _, a := range args {
+		st, ok := a.Type().Underlying().(*types.Struct)
+		if !ok {
+			continue
+		}
+		idx := -1
+		for k := 0; k < st.NumFields(); k++ {
+			if st.Field(k).Name() == role {
+				idx = k
+			}
+		}
+		if idx < 0 {
+			continue
+		}
+		u, ok := stripConv(a).(*ssa.UnOp)
+		if !ok {
+			return nil, false
+		}
+		al, ok := u.X.(*ssa.Alloc)
+		if !ok {
+			return nil, false
+		}
+		for _, r := range *al.Referrers() {
+			if fa, ok := r.(*ssa.FieldAddr); ok && fa.Field == idx {
+				for _, r2 := range *fa.Referrers() {
+					if s, ok := r2.(*ssa.Store); ok && s.Addr == ssa.Value(fa) {
+						return s.Val, true
+					}
+				}
+			}
+		}
+		return nil, true // left at its zero value
+	}
+	return nil, false
 }
